@@ -1366,7 +1366,9 @@ class XEvaluator(Evaluator):
             return self.py_str(args[0]) if f is str else self.py_repr(args[0])
         if f is bool:
             return self.truth(args[0]) if args else False
-        if f in (list, tuple, set, frozenset):
+        if f in (set, frozenset):
+            return f(self._distinct(list(self.iterate(args[0])))) if args else f()
+        if f in (list, tuple):
             return f(self.iterate(args[0])) if args else f()
         if f is dict:
             if args and not isinstance(args[0], dict):
@@ -1457,7 +1459,20 @@ class XEvaluator(Evaluator):
             return None
         raise Unsupported(f"super().{attr}")
 
+    def _distinct(self, items):
+        """Items in order without those equal (by the interpreted __eq__ of their class) to an earlier one: what a dict / set
+        keeps when the class of its keys defines equality."""
+        out = []
+        for x in items:
+            if isinstance(x, Obj) and self.methods.get((x._cls, "__eq__")) is not None:
+                if any(isinstance(y, Obj) and self.py_eq(x, y) for y in out):
+                    continue
+            out.append(x)
+        return out
+
     def call_method(self, base, attr, args, kwargs):
+        if base is dict and attr == "fromkeys" and args:
+            return dict.fromkeys(self._distinct(list(self.iterate(args[0]))), *args[1:])
         if isinstance(base, Obj):
             nat = base.__dict__.get("_native", {})
             if attr in nat:
